@@ -73,7 +73,9 @@ SPEC = {
                  "ownership: the compute function's argument is the value this call decoded (a fresh object for reference types), never the cached one",
                  "a panicking compute function is modelled as a failing one (nothing changes); the lock-discipline walk requires a deferred release around foreign calls",
                  "uint64 wrap-around of the counter workload after 2^64 increments is NOT modelled (Nat)",
-                 "apart from the dirty write failures above a failing store call is assumed to have no effect on the store (partial effects of DeletePrefix/Clear/Iterate are not modelled)"],
+                 "bulk deletions of the underlying store (DeletePrefix/Clear) failing up front or after n removed entries (bulkDelete); iterations failing after n delivered entries (kvAfter)",
+                 "constructors, accessors and the list of function declarations of both files as regenerated facts (C06_code_whole_files)",
+                 "apart from the dirty write failures and part-way bulk failures above a failing store call is assumed to have no effect on the store"],
     "manifest": {
         "text": "Theorems over every history and every fault vector (which store call / codec call / compute function fails, including natural codec failures and ErrTypedValueNotChanged): cache always equals the store (C06_cache_coherent), no fault => results equal the raw key under the codec (C06_transparent), the stored bytes are the encoding of the last successful write (C06_stored_is_last_written), every failed call is reported with its own error and leaves store and cache unchanged (C06_failure_atomic); the same for TypedStore incl. iteration stopping at the first decode error (C06_store_*); protocol theorem over every schedule and thread count: write sections are mutually exclusive and the log of completed operations is a run of the sequential machine, hence no lost update and readers see only written values (C06_serialised*). The TypedValue model is re-derived from the source on every run: the method bodies are translated to a statement language and proved equal to the model in every state (C06_code_refines_model), and their lock discipline is decided (C06_code_lock_discipline, incl. deferred release around foreign calls); the slow paths of Get/Has, run alone from EVERY state (the state after another caller filled the cache in the RUnlock->Lock window), equal the sequential step and the code-level protocol equals the protocol model (C06_code_upgrade_window, C06_code_serialised); the protocol with a ghost clock logs every call at a point between its invocation and return, in log order (C06_linearizable), is deadlock-free (C06_no_deadlock); Compute hands its function the value it decoded itself, never the cached object (C06_compute_ownership). Models are re-validated on every run by a line-by-line differential run against the real code behind a fault-injecting KVStore and failing codecs (result, call trace, raw bytes and both cache fields compared after every step), an independent in-Go property oracle, and a concurrent part decided by the Lean trace predicates: stress rounds, forced schedules (writer parked in the store, reader parked in its store call, readers pending behind a Compute parked in its callback so that they all miss the fast path and queue for the write lock) and free-running timed histories checked for linearizability (linOk, C06_linearizable_judge).",
         "note": "Trusted: Lean kernel; the three hand-written models (tie = differential execution: every single-fault position per op kind x cache state x raw state enumerated, random histories, concurrent stress); sync.RWMutex semantics; failing store calls assumed effect-free.",
